@@ -18,14 +18,14 @@ func runC01W4(c *Ctx) {
 		if _, isQ := blockingQueryParam(call.Call.StaticCallee()); isQ {
 			return true
 		}
-		n := calleeName(&call.Call)
-		if strings.HasPrefix(n, "(*"+apiPkg+".KV).") {
+		isKV := func(n string) bool { return strings.HasPrefix(n, "(*"+apiPkg+".KV).") }
+		if c01CalleeHas(&call.Call, isKV) {
 			return true
 		}
 		if sc := call.Call.StaticCallee(); sc != nil && isRepoFn(sc) {
 			return mayExec(unwrap(sc), func(j ssa.Instruction) bool {
 				jc := callCommon(j)
-				return jc != nil && strings.HasPrefix(calleeName(jc), "(*"+apiPkg+".KV).")
+				return c01CalleeHas(jc, isKV)
 			}, 0)
 		}
 		return false
